@@ -32,7 +32,7 @@ type Sink struct {
 }
 
 func NewSink(tracePath string, driver string) (*Sink, error) {
-	s := &Sink{}
+	s := &Sink{Oracle: OracleAnswer}
 	if tracePath != "" {
 		f, err := os.Create(tracePath)
 		if err != nil {
@@ -158,7 +158,7 @@ type Hist struct {
 	DebugHook func(*GenTx)
 }
 
-var burnAddr = types.HexToAddress("Mxffffffffffffffffffffffffffffffffffffffff")
+var burnAddr = types.HexToAddress("Mx00cedde786b34d733d1dc96559253081572df2c6")
 
 func NewHist(o HistOpts, sink *Sink) (*Hist, error) {
 	if o.Blocks == 0 {
@@ -189,6 +189,7 @@ func NewHist(o HistOpts, sink *Sink) (*Hist, error) {
 		h.Univ[m.Addr] = true
 	}
 	h.Univ[types.Address{}] = true
+	h.Univ[burnAddr] = true
 	h.T = time.Date(2024, 1, 10, 9, 0, 0, 0, time.UTC)
 	// params + initial state
 	sink.Op(fmt.Sprintf("P period=%d expire=%d unbond=%d move=%d jail=%d initial=%d chain=%d", n.Period, n.ExpirePeriod, types.GetUnbondPeriod(), types.GetMovePeriod(), types.GetJailPeriod(), InitialHeight, types.CurrentChainID))
@@ -205,6 +206,7 @@ func (h *Hist) appExtras(d Dump) {
 	if r0 != nil {
 		d["db price"] = fmt.Sprintf("%d %s %s %s %v", t.UnixNano(), r0, r1, last, off)
 	}
+	d["app ncoins"] = fmt.Sprint(h.N.App.CurrentState().App().GetCoinsCount())
 	rw, safe := h.N.App.CurrentState().App().Reward()
 	d["app reward"] = fmt.Sprintf("%s %s", rw, safe)
 	var vs []string
@@ -261,7 +263,7 @@ func (h *Hist) liveProjection() Dump {
 		}
 		d[fmt.Sprintf("c %d", id)] = fmt.Sprintf("%s %d %s %s %d %s %s %v %v", c.Symbol().String(), c.Version(), c.Volume(), c.Reserve(), c.Crr(), c.MaxSupply(), owner, c.Mintable, c.Burnable)
 	}
-	d["app ncoins"] = fmt.Sprint(len(d))
+	d["app ncoins"] = fmt.Sprint(n)
 	for a := range h.Univ {
 		ad := hexs(a[:])
 		for _, b := range cs.Accounts().GetBalances(a) {
@@ -274,6 +276,17 @@ func (h *Hist) liveProjection() Dump {
 		}
 	}
 	d["app slashed"] = cs.App().GetTotalSlashed().String()
+	d["app rewards"] = h.N.App.GetCurrentRewards().String()
+	// pools (reserves) through the read-only getter used by the API
+	idsAll := append([]types.CoinID{0}, ids...)
+	for i := 0; i < len(idsAll); i++ {
+		for j := i + 1; j < len(idsAll); j++ {
+			if cs.Swap().SwapPoolExist(idsAll[i], idsAll[j]) {
+				r0, r1, id := cs.Swap().SwapPool(idsAll[i], idsAll[j])
+				d[fmt.Sprintf("p %d %d", idsAll[i], idsAll[j])] = fmt.Sprintf("%d %s %s", id, r0, r1)
+			}
+		}
+	}
 	return d
 }
 
@@ -288,10 +301,10 @@ func (h *Hist) sendLive(op string) {
 		}
 	}
 	for k := range h.View {
-		if strings.HasPrefix(k, "b ") || strings.HasPrefix(k, "n ") || strings.HasPrefix(k, "c ") {
+		if strings.HasPrefix(k, "b ") || strings.HasPrefix(k, "n ") || strings.HasPrefix(k, "c ") || strings.HasPrefix(k, "p ") {
 			if _, ok := d[k]; !ok {
 				// only addresses in the universe are tracked live
-				if strings.HasPrefix(k, "c ") || h.inUniv(k) {
+				if strings.HasPrefix(k, "c ") || strings.HasPrefix(k, "p ") || h.inUniv(k) {
 					out = append(out, "-"+k)
 					delete(h.View, k)
 				}
